@@ -1376,6 +1376,10 @@ def run(prop, tier):
         rep.cov["bounds"] = {"windows": ws, "k": kq + stripe if quick else kt, "rates": [100, 1000, 8000, 16000]}
         xt = [("L", (w_, 100)) for w_ in ("0.01", "0.05", "0.1")] + [("L", ("0.01", 1000))]
         xt += [("H", (w_, r_)) for w_, r_ in (("0.02", 100), ("0.1", 100), ("0.01", 1000), ("0.05", 8000))]
+        # the same durations under different windows of equal size in samples, one call after the other
+        hd = [(a, b, c) for a in ("0.03", "0.06", "0.09") for b in ("0.06", "0.12", "0.18", "0.3") for c in ("0", "0.03", "0.045", "0.06")]
+        xt += [("Y", (100, ("0.01", "0.015", "0.012"), hd)), ("Y", (100, ("0.02", "0.025"), hd)), ("Y", (1000, ("0.01", "0.0105"), hd)),
+               ("Y", (16000, ("0.05", "0.05001"), [("0.1", "0.25", "0.05"), ("0.15003", "0.30006", "0.10002"), ("0.05", "0.50005", "0.05")]))]
         for part in common.pmap(_c06_dispatch, [("w", t) for t in tasks] + xt):
             rep.merge(part)
         rep.assumptions += ["quotients engineered to fall between 1e-10 and 1e-8 of an integer are outside the alphabet "
@@ -1414,6 +1418,8 @@ def _c06_dispatch(t):
         return c06_large(t[1])
     if t[0] == "H":
         return c06_hop(t[1])
+    if t[0] == "Y":
+        return c06_history(t[1])
     return c06_work(t[1])
 
 
@@ -1446,6 +1452,9 @@ def replay(case):
         # re-run just this tuple through the worker logic
         part = c06_single(case["w"], case["rate"], mind, maxd, sil, case["reader"])
         return part
+    if k == "c06hist":
+        part = c06_history((case["rate"], tuple(case["windows"]), [tuple(d) for d in case["durs"]]))
+        return part["viol"][0][1] if part["viol"] else None
     if k == "c06hop":
         part = c06_hop((case["w"], case["rate"]))
         return part["viol"][0][1] if part["viol"] else None
@@ -1460,6 +1469,32 @@ def replay(case):
     if k == "c09":
         part = c09_work((case["sw"], case["ch"], case["rate"], case["W"], case["pattern"], case["tail"], "quick"))
         return part["viol"][0][1] if part["viol"] else None
+
+
+def c06_history(task):
+    """Calls made one after the other in one process, with the same durations and rate but different analysis windows that
+    give the same number of samples per window: each call counts in its own window (nothing is carried over)."""
+    rate, wlist, durs = task
+    cov = {"evaluations": 0, "distinct_nontrivial": 0, "ambiguous_skipped": 0, "samples": []}
+    viol = []
+    for mind, maxd, sil in durs:
+        mind, maxd, sil = Decimal(mind), Decimal(maxd), Decimal(sil)
+        if any(ambiguous(Fraction(x) / Fraction(Decimal(w))) for x in (mind, maxd, sil) for w in wlist):
+            cov["ambiguous_skipped"] += 1
+            continue
+        for seq in itertools.permutations(wlist, 2):
+            seq = seq + (seq[0],)
+            for i, w in enumerate(seq):
+                cov["evaluations"] += 1
+                cov["distinct_nontrivial"] += 1
+                msg = c06_single(w, rate, mind, maxd, sil, False)
+                if msg and len(viol) < 3:
+                    viol.append(("history rate=%d windows=%s durations=%s/%s/%s call#%d" % (rate, ",".join(seq), mind, maxd, sil, i + 1),
+                                 "call #%d of the sequence analysis_window = %s (same durations, same rate, %d sample(s) per window each): %s" % (
+                                     i + 1, " then ".join(seq), int(float(Decimal(w)) * rate), msg),
+                                 {"kind": "c06hist", "rate": rate, "windows": list(wlist), "durs": [[str(mind), str(maxd), str(sil)]]}))
+    cov["samples"].append({"history_rate": rate, "windows": list(wlist), "duration_triples": len(durs)})
+    return {"cov": cov, "viol": viol}
 
 
 def c06_single(w_s, rate, mind, maxd, sil, use_reader):
